@@ -289,19 +289,38 @@ Definition apply_ev (pres : var -> bool) (e : ev) : var -> bool :=
   | EvSet v => upd pres v true
   end.
 
+(* the success flags of an observed trace agree with the presence map obtained by replaying the trace from the
+   initial presence of the variables (the harness knows which variables it set before the call) *)
+Fixpoint consistent (pres : var -> bool) (tr : list ev) : bool :=
+  match tr with
+  | [] => true
+  | e :: tr' =>
+      (match e with
+       | EvGet v ok | EvDel v ok => Bool.eqb (pres v) ok
+       | EvSet _ => true
+       end) && consistent (apply_ev pres e) tr'
+  end.
+Definition pres_of (l : list bool) : var -> bool := fun v => nth v l false.
+
 (* ---------------- correspondence cases ---------------- *)
 
 (* a real run: observed env-op trace, whether it raised, and whether the environment afterwards equalled
    the environment before (as observed on the real process).  Verdict bits:
-   +1  the generated skeleton does not accept the observed trace (translator/model does not cover the code)
+   +1  the generated skeleton does not accept the observed trace (translator/model does not cover the code),
+       or (CRunP) the success flags of the trace contradict the initial presence of the variables
    +2  the run did not restore the environment (the property fails on this fault schedule)
    +4  skeleton claims restoration (restores_check = true) yet the run did not restore: model unsound for the code *)
-Inductive case := CRun (p : prog) (vars : list var) (tr : list ev) (raised restored : bool).
+Inductive case :=
+| CRun (p : prog) (vars : list var) (tr : list ev) (raised restored : bool)
+| CRunP (p : prog) (vars : list var) (pres : list bool) (tr : list ev) (raised restored : bool).
 
 Definition run_case (c : case) : nat :=
   match c with
   | CRun p vars tr raised restored =>
       (if accepts p tr raised then 0 else 1) + (if restored then 0 else 2)
+      + (if restores_check vars p && negb restored then 4 else 0)
+  | CRunP p vars pres tr raised restored =>
+      (if accepts p tr raised && consistent (pres_of pres) tr then 0 else 1) + (if restored then 0 else 2)
       + (if restores_check vars p && negb restored then 4 else 0)
   end.
 Definition run_cases (cs : list case) : list nat := map run_case cs.
